@@ -111,6 +111,9 @@ type Interp struct {
 	symIdx map[string]*Cell
 	inputs       map[string]*Object
 	nreads       int
+	stack        []*Frame
+	// ReadStates: the abstract state just before each entropy read (loop-unrolling mode)
+	ReadStates []ReadState
 	inputRoots   []*Cell
 	PowApplied   []*ssa.Function
 	loopIter     map[*ssa.BasicBlock]int
@@ -369,6 +372,21 @@ func (it *Interp) callFn(fn *ssa.Function, args []Value, inLoop bool) Value {
 		}
 	}
 	it.pendingBinds = nil
+	it.stack = append(it.stack, fr)
+	defer func() { it.stack = it.stack[:len(it.stack)-1] }()
+	defer func() {
+		// a panic leaving this frame runs the frame's deferred calls first
+		if e := recover(); e != nil {
+			if _, ok := e.(*goPanic); ok && len(fr.defers) > 0 {
+				ds := fr.defers
+				fr.defers = nil
+				for i := len(ds) - 1; i >= 0; i-- {
+					fr.callArgs(&ssa.Call{Call: ds[i].d.Call}, ds[i].args)
+				}
+			}
+			panic(e)
+		}
+	}()
 	r := fr.exec(fn.Blocks[0], nil, nil, false)
 	return r.ret
 }
